@@ -104,7 +104,8 @@ def candidates(rng, shapes):
         if len(t) == 1 and rng.random() < 0.3:
             shape_param = t[0]
         if rng.random() < 0.25:
-            return "reshape", {"shape": shape_param, "order": rng.choice(["F", "C", "A"])}, [i]
+            # ("A" is left out: it follows the memory layout of the operand, which the label arrays do not share)
+            return "reshape", {"shape": shape_param, "order": rng.choice(["F", "C"])}, [i]
         return "reshape", {"shape": shape_param}, [i]
     if fam == "transpose":
         if rng.random() < 0.3:
